@@ -156,7 +156,7 @@ def main(prop, tier):
         res = run_many(exe, cfgs, timeout=120)
         bad = [(c, rc, o) for c, (rc, o) in zip(cfgs, res) if rc != 0]
         if bad:
-            raise Broken("simcam_vs exited abnormally (rc=%s) on %s:\n%s" % (bad[0][1], bad[0][0], open(bad[0][0]).read()))
+            crash_or_broken(bad[0][1], bad[0][2], "simcam_vs", "simcam_vs on " + open(bad[0][0]).read().replace("\n", "; ")[:600])
         mres = [f.result() for f in futs]
     for m, r in mres:
         what = "SimCamStream trigger=%s runs=%d maxtrig=%d maxget=%d" % m
